@@ -210,10 +210,15 @@ def run_case(spec):
             dd = np.min(np.linalg.norm(mv[:, None, :] - r.points[None, :-1, :], axis=2), axis=1)
             if dd.max() > 1e-9 * scale * max(1.0, fac):
                 viol("transform_vertices_wrong", {"op": name, "max_vertex_error": float(dd.max())})
+            _ = a_work.contains_points(P)  # use the polygon before transforming it in place
             r2 = call(True)
             cnt("aliasing_checks")
             if r2 is not a_work:
                 viol("inplace_did_not_return_self", {"op": name})
+            if np.any(ok & (np.asarray(a_work.contains_points(Q)) != ina)):
+                viol("contains_points_stale_after_inplace_transform", {"op": name})
+            if abs(a_work.area - fac * area0) > 1e-9 * max(fac * area0, area0):
+                viol("transform_area_wrong", {"op": name + "_inplace"})
             if not np.allclose(a_work.points, r.points, rtol=0, atol=1e-12 * scale * max(1, fac)):
                 viol("inplace_ne_noninplace", {"op": name})
             check_stored(a_work, name + "_inplace")
